@@ -452,6 +452,12 @@ func (t *Topic) handleMeta(msg *ClientComMessage) {
 		msg.sess.queueOut(ErrNotFoundReply(msg, types.TimeNow()))
 		return
 	}
+	if pssd, ok := t.sessions[msg.sess]; ok && !msg.sess.isProxy() && pssd.isChanSub != asChan {
+		// Cannot address non-channel subscription as channel and vice versa:
+		// a channel reader must not be served as a group member (message authors are withheld from readers).
+		msg.sess.queueOut(ErrNotFoundReply(msg, types.TimeNow()))
+		return
+	}
 	switch {
 	case msg.Get != nil:
 		// Get request
